@@ -38,6 +38,9 @@ type Options struct {
 	// a per-run value chosen by the simulator (the number of processors is an
 	// input of the environment like any other)
 	Procs bool
+	// Clock: time.Now() and time.Since(x) become simrt.Now() / simrt.Since(x),
+	// a simulated clock that the run's tape makes stand still, creep or jump
+	Clock bool
 }
 
 type Site struct {
@@ -56,6 +59,7 @@ type Stats struct {
 	MemoEvictPoint int
 	SyncReplaced   int
 	ProcsReplaced  int
+	ClockReplaced  int
 	StderrReplaced int
 	MapRangesWoven int
 	MapRangesSeen  int // range statements over a map type found by go/types
@@ -195,6 +199,8 @@ func (w *Weaver) weaveFile(fset *token.FileSet, f *ast.File, src []byte, rel str
 	usedRuntime := false
 	mapsName, hasMaps := importName(f, "maps")
 	usedMaps := false
+	timeName, hasTime := importName(f, "time")
+	usedTime := false
 
 	var funcStack []string
 	// statement-level yields: before every statement of a block except the
@@ -352,6 +358,17 @@ func (w *Weaver) weaveFile(fset *token.FileSet, f *ast.File, src []byte, rel str
 					}
 				}
 			}
+			if opt.Clock && hasTime {
+				if fun, ok := x.Fun.(*ast.SelectorExpr); ok {
+					if pk, ok := fun.X.(*ast.Ident); ok && pk.Name == timeName {
+						if (fun.Sel.Name == "Now" && len(x.Args) == 0) || (fun.Sel.Name == "Since" && len(x.Args) == 1) || (fun.Sel.Name == "Until" && len(x.Args) == 1) {
+							add(off(x.Fun.Pos()), off(x.Fun.End())-off(x.Fun.Pos()), alias+"."+fun.Sel.Name)
+							w.Stats.ClockReplaced++
+							usedTime = true
+						}
+					}
+				}
+			}
 			if opt.Procs && hasRuntime {
 				if fun, ok := x.Fun.(*ast.SelectorExpr); ok {
 					if pk, ok := fun.X.(*ast.Ident); ok && pk.Name == runtimeName {
@@ -400,6 +417,9 @@ func (w *Weaver) weaveFile(fset *token.FileSet, f *ast.File, src []byte, rel str
 	}
 	if usedRuntime {
 		tail += fmt.Sprintf("\nvar _ = %s.NumCPU\n", runtimeName)
+	}
+	if usedTime {
+		tail += fmt.Sprintf("\nvar _ = %s.Now\n", timeName)
 	}
 	if usedMaps {
 		tail += fmt.Sprintf("\nvar _ = %s.Keys[map[int]int]\n", mapsName)
